@@ -696,7 +696,7 @@ def spec_of(f, rec, entry):
         "stored_model": digest(rc["model"]) if rc.get("model") is not None else digest(rec["model"]),
         "load_error": rc.get("load_error"),
         "samples": samples, "interrupt": {None: "NoInterrupt", "before_samples": "BeforeSamples", "after_samples": "AfterSamples"}[sc.get("interrupt")],
-        "extra": ["attr"] if na == 1 else [], "analyses": [["attr"]] * na if na > 1 else [],
+        "extra": ["attr", "sub.deep"] if na == 1 else [], "analyses": [["attr", "sub.deep"]] * na if na > 1 else [],
     }
 
 
@@ -825,6 +825,10 @@ def oracle_scenario(c, r):
         for nm, dg in e.get("json_digests", {}).items():
             if f["json_digest"].get(nm) != dg:
                 return "fit %s: json %s missing or different in the database" % (wid, nm)
+        for kind, dk, fk in (("pickle", "pickle_digests", "pickle_digest"), ("array", "array_digests", "array_digest")):
+            for nm, dg in e.get(dk, {}).items():
+                if f.get(fk, {}).get(nm) != dg:
+                    return "fit %s: %s %s missing or different in the database" % (wid, kind, nm)
         if e.get("samples"):
             want = [(csv_kv(e, q), q["ll"], q["lp"], q["w"]) for q in e["samples"]["rows"]]
             got = [(q["kv"], q["ll"], q["lp"], q["w"]) for q in f["samples"]] if isinstance(f["samples"], list) else f["samples"]
